@@ -29,7 +29,7 @@ ASSUMPTIONS = ["identity of manager-originated frames = all header fields but ms
                "a connection the manager itself dropped may end mid-frame",
                "harness clients are drained continuously"]
 REQUIRE = {"frames_parsed": 5000, "order_pairs_compared": 500, "msg_count_checked": 5000,
-           "pressure_big_frames_to_slow_receivers": 40}
+           "pressure_big_frames_to_slow_receivers": 40, "twin_messages_delivered": 3000}
 CASE_TIMEOUT = 120
 
 
@@ -140,6 +140,9 @@ def gen_cases(tier, seed):
     for i in range(n_free):
         cases.append({"kind": "free", "seed": rng.getrandbits(32), "tc": i % 3 == 2, "npub": rng.randint(2, 8),
                       "nsub": rng.randint(2, 4), "nmsg": rng.choice([200, 500, 1200]), "timeout": 60})
+    # two managers in one process (a test bench, a bridge between two networks): each one's streams stay its own
+    for i in range(3 if tier == "quick" else 40):
+        cases.append({"kind": "twin", "seed": rng.getrandbits(32), "tc": i % 2 == 1, "nmsg": 1500})
     # back-pressure: receivers with a small receive buffer that read slowly while frames far larger than the
     # free send-buffer space are forwarded to them (the manager has to wait for room inside one frame)
     for i in range(16 if tier == "quick" else 300):
@@ -155,6 +158,8 @@ def run_case(case, tier):
         return run_free(case)
     if case["kind"] == "pressure":
         return run_pressure(case)
+    if case["kind"] == "twin":
+        return run_twin(case)
     rig = ManagerRig(stepped=True, timecode=bool(case.get("tc")), loud=bool(case.get("loud")))
     try:
         sc = Scenario(rig, case.get("seed", 0))
@@ -440,6 +445,108 @@ class SlowClient:
             self.sock.close()
         except OSError:
             pass
+
+
+def run_twin(case):
+    """a second MessageManager runs in the same interpreter (plain thread, no shims: the rig's shims only act on the
+    rig's own manager thread); both carry traffic with different payload sizes at the same time"""
+    import logging
+    import pyrtma.manager as pm
+    from vf.rig.scenario import pub_payload
+    rig = ManagerRig(stepped=False, timecode=bool(case.get("tc")), virtual_clock=False)
+    B = None
+    thB = None
+    try:
+        B = pm.MessageManager("127.0.0.1", 0, timecode=bool(case.get("tc")), log_level=logging.CRITICAL + 10, send_msg_timing=True)
+        addrB = B.listen_socket.getsockname()
+        thB = threading.Thread(target=B.run, daemon=True, name="vf-second-manager")
+        thB.start()
+        groups = []
+        for tag, addr, base in (("A", rig.addr, 0), ("B", addrB, 50)):
+            clients = []
+            for role, mid in (("s", 20 + base), ("p", 40 + base)):
+                wc = W.WireClient(rig.drainer, addr, f"{tag}{role}", timecode=rig.timecode)
+                wc.send_frame(W.MT_CONNECT_V2, W.p_connect_v2(0, 0, 0, mid, 1, b""), src_mod=mid)
+                wc.send_frame(W.MT_CONNECT, W.p_connect(0, 0), src_mod=mid)
+                clients.append(wc)
+            clients[0].send_frame(W.MT_SUBSCRIBE, W.p_sub(ALL), src_mod=20 + base)
+            groups.append((tag, clients, base))
+        time.sleep(0.1)
+        registry = {}
+        lock = threading.Lock()
+
+        def worker(tag, wc, base, sizes):
+            r = random.Random(case["seed"] * 31 + base)
+            for n in range(case["nmsg"]):
+                pid = PUB_BASE + (base + 1) * 1_000_000 + n + 1
+                data = W.frame_bytes(1234 + base, pub_payload(pid, r.choice(sizes)), timecode=rig.timecode, msg_count=n,
+                                     send_time=float(pid), src_mod=40 + base, reserved=pid & 0xFFFFFFFF)
+                with lock:
+                    registry[pid] = {"id": pid, "by": f"{tag}p", "key": W.parse_frames(data, rig.timecode)[0][0].key()}
+                try:
+                    wc.send_raw(data)
+                except OSError:
+                    return
+
+        ths = [threading.Thread(target=worker, args=(tag, cl[1], base, [8, 8, 64] if tag == "A" else [0, 24, 1024]), daemon=True)
+               for tag, cl, base in groups]
+        for t in ths:
+            t.start()
+        for t in ths:
+            t.join(90)
+        problems = []
+        for tag, cl, base in groups:       # fence: each publisher's request is acknowledged after all it sent
+            wc = cl[1]
+            before = sum(1 for f in wc.frames()[0] if f.msg_type == W.MT_ACK)
+            try:
+                wc.send_frame(W.MT_SUBSCRIBE, W.p_sub(4990), src_mod=40 + base)
+            except OSError as e:
+                problems.append(f"fence request on manager {tag} failed: {e!r}")
+                continue
+            end = time.time() + 60
+            while time.time() < end:
+                try:
+                    if sum(1 for f in wc.frames()[0] if f.msg_type == W.MT_ACK) > before:
+                        break
+                except W.ParseError:
+                    break
+                time.sleep(0.01)
+            else:
+                problems.append(f"no acknowledgement for the fence request on manager {tag}")
+        time.sleep(0.2)
+        rig.drainer.sync(10.0)
+        res = {"violations": [], "counters": {}, "sets": {}, "nontrivial": False}
+        if not rig.alive() or not thB.is_alive():
+            res["violations"].append({"mech": "manager_died", "detail": f"first manager alive={rig.alive()} second alive={thB.is_alive()}: {(rig.crash or '')[-600:]}"})
+        for tag, cl, base in groups:
+            streams = {}
+            for wc in cl:
+                try:
+                    fr, left = wc.frames()
+                    streams[wc.label] = {"frames": fr, "leftover": left, "eof": wc.eof, "parse_error": None}
+                except W.ParseError as e:
+                    streams[wc.label] = {"frames": [], "leftover": b"", "eof": wc.eof, "parse_error": str(e)}
+            r1 = judge_streams(streams, {wc.label: (None, wc.eof) for wc in cl}, lambda f: registry.get(f.pid))
+            res["violations"] += [dict(v, detail=f"manager {tag}: " + v["detail"]) for v in r1["violations"]]
+            for k_, v_ in r1["counters"].items():
+                res["counters"][k_] = res["counters"].get(k_, 0) + v_
+            got = sum(1 for f in streams[cl[0].label]["frames"] if f.pid in registry)
+            res["counters"]["twin_messages_delivered"] = res["counters"].get("twin_messages_delivered", 0) + got
+        res["nontrivial"] = True
+        res["sig"] = sig_of(case)
+        res["counters"]["twin_cases"] = 1
+        if problems:
+            res["inconclusive"] = "; ".join(problems)
+        return res
+    finally:
+        try:
+            if B is not None:
+                B.close()
+            if thB is not None:
+                thB.join(3)
+        except Exception:
+            pass
+        rig.close()
 
 
 def run_pressure(case):
